@@ -24,7 +24,7 @@ def run(ctx):
     quick = ctx.quick()
     seed = str(ctx.seed)
     stats = dict(events=0, runs=0, logs=0, replies=0, dumpkeys=0, mismatches=0, groups=0, restores=0,
-                 reopens=0, straddle_logs=0, straddle_late=0, panics=0, driver_runs=[], commands=set())
+                 reopens=0, straddle_logs=0, straddle_late=0, panics=0, hung=0, driver_runs=[], commands=set())
     samples = []
     model = {}
     good_files, selftest = [], {}
@@ -75,7 +75,7 @@ def run(ctx):
         if summ is None:
             continue
         s = summ["stats"]
-        for k in ("runs", "logs", "replies", "dumpkeys", "groups", "restores", "reopens", "straddle_logs", "straddle_late"):
+        for k in ("runs", "logs", "replies", "dumpkeys", "groups", "restores", "reopens", "straddle_logs", "straddle_late", "hung"):
             stats[k] += s.get(k, 0)
         stats["panics"] += summ.get("panics", 0)
         ctx.skipped += summ.get("skipped", 0)
@@ -133,7 +133,7 @@ def run(ctx):
         dump_keys_compared=stats["dumpkeys"], events_validated=stats["events"],
         checkpoint_restores=stats["restores"], reopens=stats["reopens"],
         straddle_logs=stats["straddle_logs"], straddle_rounds_too_late=stats["straddle_late"],
-        mismatching_runs=stats["mismatches"], panics=stats["panics"],
+        mismatching_runs=stats["mismatches"], panics=stats["panics"], hung_runs=stats.get("hung", 0),
         commands_in_logs=stats["commands"], driver_runs=stats["driver_runs"],
         rule="every seeded log (KV, bitmap, HLL, JSON, hash, list, set, zset/geo and TTL commands, adversarially close "
              "timestamps, multi-command entries) is applied to fresh real state machines under 9-20 execution "
@@ -148,7 +148,7 @@ def run(ctx):
         "entries, the way KVNode.applyEntries does); leader/follower differ only in who proposes, both apply through "
         "this path",
         "mem and pebble are the deciding engines; rocksdb (shim) is not run",
-        "the background local-deletion scanner is not started (documented exception of the property)",
+        "the background local-deletion scanner (documented exception of the property) fires every 300 s; no state machine of a run lives that long, so it never acts",
         "raw dumps leave out the table that holds HyperLogLog keys (their stored form depends on when the in-memory "
         "HLL write cache is flushed); HLL keys are compared through PFCOUNT",
         "logical dumps are taken only for logs whose expiry instants are >= 1 h away from the wall clock; straddle "
